@@ -623,7 +623,8 @@ def analyse(M, Hh, acc):
                 nu = [fr(st["y"][a]) - sum(Hf[a][b] * x[b] for b in range(n)) for a in range(m)]
                 gl = gauss_logpdf_exact(nu, M["R"])
                 if gl[0] < UNDERFLOW_LOG:
-                    acc.hit("density-underflow:likelihood"); slack += 0.7
+                    # exp() returns at most DBL_MIN there, so log(l + eps) moves by at most log(1 + scale)
+                    acc.hit("density-underflow:likelihood"); slack += math.log(1.0 + max(lk["scale"], 1.0)) + 0.01
                     if l > 1e-300 * max(lk["scale"], 1.0):
                         prop.append(("gaussian-likelihood", "%s: particle %d GaussianLikelihood %.17g where scale*N(y;Hx,R) underflows" % (tag, i, l)))
                 else:
